@@ -428,6 +428,16 @@ def check(prop, tier):
             step_oracle(ctx, cfg)
     elif cargo_ok and not driver_ok:
         ctx.notes.append('driver missing; correspondence not run')
+    if prop == 'C04' and not lean_ok and driver_ok:
+        # the From/LossyFrom table theorem may have broken: probe the newly admitted conversions on the implementation
+        rc, out = sh(['python3', VERIF + '/tools/from_probe.py'], timeout=1200)
+        if rc == 0 and out.strip():
+            p = subprocess.run([DRIVER, 'rel'], input=out, stdout=subprocess.PIPE, text=True)
+            for l in p.stdout.splitlines():
+                if l.startswith('SPEC '):
+                    ctx.failing.append(('rel-probe', l[5:]))
+        elif rc != 0:
+            ctx.notes.append('from_probe failed: ' + out[-500:])
     violations = 0
     lines = []
     for hid, (k, cnt, ex) in sorted(ctx.known_hits.items()):
